@@ -55,7 +55,12 @@ pub struct Delivered {
 }
 
 /// Feed `chunks` to a fresh library Reader and collect everything it delivers.
-pub fn run_reader(chunks: &[Vec<u8>], mode: Mode, max_fragment: usize, level: DecodeLevel) -> Delivered {
+pub fn run_reader(
+    chunks: &[Vec<u8>],
+    mode: Mode,
+    max_fragment: usize,
+    level: DecodeLevel,
+) -> Delivered {
     let (pipe, mut phys) = io::phys_pipe(None);
     for c in chunks {
         pipe.push(c);
@@ -138,7 +143,9 @@ fn check_case(
     max_fragment: usize,
     level: DecodeLevel,
 ) -> usize {
-    check_case_full(a, label, class, chunks, mode, max_fragment, level).frames.len()
+    check_case_full(a, label, class, chunks, mode, max_fragment, level)
+        .frames
+        .len()
 }
 
 fn check_case_full(
@@ -164,14 +171,26 @@ fn check_case_full(
         // classify: soundness (delivered something the reference does not) or completeness
         let extra = got.frames.iter().any(|f| !want.contains(f)) || got.frames.len() > want.len();
         if extra {
-            bad = Some(("soundness", "delivered a frame the reference de-framer does not find".into()));
+            bad = Some((
+                "soundness",
+                "delivered a frame the reference de-framer does not find".into(),
+            ));
         } else {
-            bad = Some(("completeness", "a frame the reference de-framer finds was not delivered".into()));
+            bad = Some((
+                "completeness",
+                "a frame the reference de-framer finds was not delivered".into(),
+            ));
         }
     } else if !mode.discard && want_err != got_err_frame {
-        bad = Some(("close_mode_error", format!("reference error={want_err} library error={:?}", got.error)));
+        bad = Some((
+            "close_mode_error",
+            format!("reference error={want_err} library error={:?}", got.error),
+        ));
     } else if mode.discard && got_err_frame {
-        bad = Some(("discard_mode_error", format!("library returned {:?} in discard mode", got.error)));
+        bad = Some((
+            "discard_mode_error",
+            format!("library returned {:?} in discard mode", got.error),
+        ));
     }
     if let Some((rule, why)) = bad {
         let sig = format!("{}|{}|{}", rule, mode.name(), class);
@@ -341,7 +360,10 @@ pub fn run(a: &ShardArgs) -> Result<(), String> {
                     "C06.format",
                     &format!("format|len{}", if len == 0 { "0" } else { "n" }),
                     J::obj(vec![
-                        ("why", J::s("library formatter and reference framer disagree")),
+                        (
+                            "why",
+                            J::s("library formatter and reference framer disagree"),
+                        ),
                         ("library", J::hex(&lib)),
                         ("reference", J::hex(&reff)),
                     ]),
@@ -360,8 +382,14 @@ pub fn run(a: &ShardArgs) -> Result<(), String> {
             let mut stream = lib.clone();
             stream.extend_from_slice(&lib);
             for (mi, mode) in [
-                Mode { discard: true, datagram: false },
-                Mode { discard: false, datagram: false },
+                Mode {
+                    discard: true,
+                    datagram: false,
+                },
+                Mode {
+                    discard: false,
+                    datagram: false,
+                },
             ]
             .iter()
             .enumerate()
@@ -375,19 +403,43 @@ pub fn run(a: &ShardArgs) -> Result<(), String> {
                     out::count("roundtrip_ok", 1);
                 }
                 // one byte at a time
-                check_case(a, "bytewise", "bytewise", &split_every(&stream, 1), *mode, mf, lv);
+                check_case(
+                    a,
+                    "bytewise",
+                    "bytewise",
+                    &split_every(&stream, 1),
+                    *mode,
+                    mf,
+                    lv,
+                );
                 out::distinct(&format!("A/{}/{}/bytewise", mode.name(), lenclass));
                 // every single split point (first header only, to bound cost; others sampled)
                 if h == 0 || thorough {
                     for k in 1..stream.len() {
-                        check_case(a, "split1", "split1", &split_at(&stream, k), *mode, mf, level(0));
+                        check_case(
+                            a,
+                            "split1",
+                            "split1",
+                            &split_at(&stream, k),
+                            *mode,
+                            mf,
+                            level(0),
+                        );
                     }
                     out::count("single_split_sweeps", 1);
                     out::distinct(&format!("A/{}/{}/allsplits", mode.name(), lenclass));
                 } else {
                     for _ in 0..6 {
                         let k = r.range(1, stream.len() as u64 - 1) as usize;
-                        check_case(a, "split1", "split1", &split_at(&stream, k), *mode, mf, level(0));
+                        check_case(
+                            a,
+                            "split1",
+                            "split1",
+                            &split_at(&stream, k),
+                            *mode,
+                            mf,
+                            level(0),
+                        );
                     }
                 }
                 // random multi-splits
@@ -399,9 +451,20 @@ pub fn run(a: &ShardArgs) -> Result<(), String> {
             }
             // datagram mode: whole frame per datagram is delivered; split frame never stitched
             for discard in [true, false] {
-                let mode = Mode { discard, datagram: true };
+                let mode = Mode {
+                    discard,
+                    datagram: true,
+                };
                 let mf = MAX_FRAGS[(h + len) % MAX_FRAGS.len()];
-                let n = check_case(a, "dgram-whole", "dgram-whole", &[lib.clone(), lib.clone()], mode, mf, level(h));
+                let n = check_case(
+                    a,
+                    "dgram-whole",
+                    "dgram-whole",
+                    &[lib.clone(), lib.clone()],
+                    mode,
+                    mf,
+                    level(h),
+                );
                 if n == 2 {
                     out::count("datagram_whole_ok", 1);
                 }
@@ -421,14 +484,25 @@ pub fn run(a: &ShardArgs) -> Result<(), String> {
             // straddle the ReadBuffer end: fill the buffer with many frames in odd chunks
             {
                 let mf = *r.pick(&MAX_FRAGS);
-                let mode = Mode { discard: r.bool(), datagram: false };
+                let mode = Mode {
+                    discard: r.bool(),
+                    datagram: false,
+                };
                 let mut big = Vec::new();
                 let copies = (mf / 249 + 2) * 292 / lib.len().max(10) + 3;
                 for _ in 0..copies.min(400) {
                     big.extend_from_slice(&lib);
                 }
                 let csize = r.range(1, 700) as usize;
-                check_case(a, "wrap", "wrap", &split_every(&big, csize), mode, mf, level(0));
+                check_case(
+                    a,
+                    "wrap",
+                    "wrap",
+                    &split_every(&big, csize),
+                    mode,
+                    mf,
+                    level(0),
+                );
                 out::count("buffer_wrap_cases", 1);
                 out::distinct(&format!("A/{}/{}/wrap/mf{}", mode.name(), lenclass, mf));
             }
@@ -439,8 +513,12 @@ pub fn run(a: &ShardArgs) -> Result<(), String> {
                     m[bit / 8] ^= 1 << (bit % 8);
                     // followed by an intact copy: must still be found in discard mode
                     // after the damaged one has been flushed
-                    let mode = Mode { discard: bit % 2 == 0, datagram: false };
-                    let n = check_case(a, "flip1", "flip1", &[m, lib.clone()], mode, 2048, level(0));
+                    let mode = Mode {
+                        discard: bit % 2 == 0,
+                        datagram: false,
+                    };
+                    let n =
+                        check_case(a, "flip1", "flip1", &[m, lib.clone()], mode, 2048, level(0));
                     out::count("flip1", 1);
                     if n <= 1 {
                         out::count("flip1_rejected", 1);
@@ -454,7 +532,11 @@ pub fn run(a: &ShardArgs) -> Result<(), String> {
     // ---------------------------------------------------------------- part B
     // weight-2 exhaustive on special lengths (pairs sharded by first index),
     // sampled weight 2/3/heavier elsewhere
-    let special: &[usize] = if thorough { &[0, 1, 15, 16, 17, 31, 32, 33, 250] } else { &[0, 1, 15, 16, 17] };
+    let special: &[usize] = if thorough {
+        &[0, 1, 15, 16, 17, 31, 32, 33, 250]
+    } else {
+        &[0, 1, 15, 16, 17]
+    };
     for &len in special {
         out::progress(&format!("B w2 len={len}"));
         let payload = payload_bytes(&mut a.rng(&format!("c06/w2/{len}")), len);
@@ -469,7 +551,10 @@ pub fn run(a: &ShardArgs) -> Result<(), String> {
                 let mut m = f.clone();
                 m[i / 8] ^= 1 << (i % 8);
                 m[j / 8] ^= 1 << (j % 8);
-                let mode = Mode { discard: (i + j) % 2 == 0, datagram: false };
+                let mode = Mode {
+                    discard: (i + j) % 2 == 0,
+                    datagram: false,
+                };
                 let n = check_case(a, "flip2", "flip2", &[m], mode, 2048, level(0));
                 pairs += 1;
                 if n == 0 {
@@ -508,8 +593,20 @@ pub fn run(a: &ShardArgs) -> Result<(), String> {
             m[b / 8] ^= 1 << (b % 8);
         }
         let mode = pick_mode(&mut r);
-        let chunks = if r.bool() { vec![m.clone()] } else { split_random(&mut r, &m) };
-        let got = check_case_full(a, "flipN", &format!("flip{}", w.min(4)), &chunks, mode, *r.pick(&MAX_FRAGS), level(i as usize));
+        let chunks = if r.bool() {
+            vec![m.clone()]
+        } else {
+            split_random(&mut r, &m)
+        };
+        let got = check_case_full(
+            a,
+            "flipN",
+            &format!("flip{}", w.min(4)),
+            &chunks,
+            mode,
+            *r.pick(&MAX_FRAGS),
+            level(i as usize),
+        );
         let key = format!("flip{}", if w <= 3 { w.to_string() } else { "4+".into() });
         out::count(&key, 1);
         // the damaged frame itself must not come out; frames that happen to be embedded in its
@@ -525,7 +622,11 @@ pub fn run(a: &ShardArgs) -> Result<(), String> {
                 "C06.soundness_weight_le3",
                 &format!("w{w}"),
                 J::obj(vec![("frame", J::hex(&f)), ("mutated", J::hex(&m))]),
-                J::obj(vec![("check", J::s("c06")), ("seed", J::U(a.seed)), ("chunks", chunks_j(&chunks))]),
+                J::obj(vec![
+                    ("check", J::s("c06")),
+                    ("seed", J::U(a.seed)),
+                    ("chunks", chunks_j(&chunks)),
+                ]),
             );
         }
         out::distinct(&format!("B/sampled/w{}/{}", w.min(4), mode.name()));
@@ -567,14 +668,22 @@ pub fn run(a: &ShardArgs) -> Result<(), String> {
             }
             5 => {
                 // valid header, bad body
-                let mut f = rl::Frame::new(0xC4, 1, 1024, &{ let n = r.range(1, 250) as usize; r.bytes(n) }).encode();
+                let mut f = rl::Frame::new(0xC4, 1, 1024, &{
+                    let n = r.range(1, 250) as usize;
+                    r.bytes(n)
+                })
+                .encode();
                 let k = r.range(10, f.len() as u64 - 1) as usize;
                 f[k] ^= 1 << r.below(8);
                 f
             }
             6 => {
                 // valid header announcing a long body, then truncated
-                let f = rl::Frame::new(0xC4, 1, 1024, &{ let n = r.range(40, 250) as usize; r.bytes(n) }).encode();
+                let f = rl::Frame::new(0xC4, 1, 1024, &{
+                    let n = r.range(40, 250) as usize;
+                    r.bytes(n)
+                })
+                .encode();
                 let k = r.range(10, 30) as usize;
                 f[..k].to_vec()
             }
@@ -592,9 +701,17 @@ pub fn run(a: &ShardArgs) -> Result<(), String> {
             1 => r.range(1, 17) as usize,
             _ => r.range(0, 250) as usize,
         };
-        let target = rl::Frame::new(if r.bool() { 0xC4 } else { r.u8() }, addr(&mut r), addr(&mut r), &payload_bytes(&mut r, flen));
+        let target = rl::Frame::new(
+            if r.bool() { 0xC4 } else { r.u8() },
+            addr(&mut r),
+            addr(&mut r),
+            &payload_bytes(&mut r, flen),
+        );
         let tbytes = target.encode();
-        let mode = Mode { discard: r.below(4) != 0, datagram: false };
+        let mode = Mode {
+            discard: r.below(4) != 0,
+            datagram: false,
+        };
         // flush: enough clean frames after the target to push out any false header
         let mut tail = Vec::new();
         let filler = rl::Frame::new(0x44, 2, 3, &[0xAA; 250]).encode();
@@ -640,7 +757,15 @@ pub fn run(a: &ShardArgs) -> Result<(), String> {
             }
         }
         let mf = *r.pick(&MAX_FRAGS);
-        let got = check_case(a, "noise", &format!("noise{kind}/{cname}"), &chunks, mode, mf, level(i as usize));
+        let got = check_case(
+            a,
+            "noise",
+            &format!("noise{kind}/{cname}"),
+            &chunks,
+            mode,
+            mf,
+            level(i as usize),
+        );
         out::count("noise_cases", 1);
         // model independent completeness statement (discard mode): if the reference
         // scanner finds the target at its own offset, the library must deliver it.
@@ -659,7 +784,10 @@ pub fn run(a: &ShardArgs) -> Result<(), String> {
                         "C06.discard_completeness",
                         &format!("noise{kind}|{cname}"),
                         J::obj(vec![
-                            ("why", J::s("valid frame after noise was not delivered in discard mode")),
+                            (
+                                "why",
+                                J::s("valid frame after noise was not delivered in discard mode"),
+                            ),
                             ("noise", J::hex(&noise)),
                             ("frame", J::hex(&tbytes)),
                             ("chunking", J::s(cname)),
@@ -682,9 +810,17 @@ pub fn run(a: &ShardArgs) -> Result<(), String> {
     // samples
     let f = rl::Frame::new(0xC4, 1, 1024, &[0xC0, 0xC1, 0x01, 0x3C, 0x01, 0x06]);
     out::sample(J::obj(vec![
-        ("kind", J::s("round trip under every split point, bit flips of weight 1..3, noise+frame")),
+        (
+            "kind",
+            J::s("round trip under every split point, bit flips of weight 1..3, noise+frame"),
+        ),
         ("example_frame", J::hex(&f.encode())),
-        ("example_noise_case", J::s("noise=05 64 | frame | 2 filler frames, delivered in separate reads, discard mode")),
+        (
+            "example_noise_case",
+            J::s(
+                "noise=05 64 | frame | 2 filler frames, delivered in separate reads, discard mode",
+            ),
+        ),
     ]));
     Ok(())
 }
